@@ -46,7 +46,9 @@ package dns
 //@ func (*RRSIG).sigBuf [C10]
 //@   requires rr != nil
 //@   exit whole: callres("fromBase64", 1) != nil ==> ret0 == nil
-//@ func StringToTime [C07 C05]
+// RFC 4034 3.2: the YYYYMMDDHHmmSS form is in UTC, on reading (time.Parse reads a zone-less layout as UTC) as on printing
+//@ func StringToTime [C07 C05 C17]
+//@   exit utc: called("Parse") [C05 C17]
 
 // the identity "hash" of Ed25519 (RFC 8080: the message itself is signed) keeps every octet written to it
 //@ func (identityHash).Write [C10 C18]
